@@ -103,7 +103,7 @@ def generate(tier, rng):
             t = gen.random_itier(rng, tmax=30, maxn=5) if rng.random() < 0.6 else gen.random_ptier(rng, tmax=30, maxn=5)
             corrupt = None
             if rng.random() < 0.7:
-                corrupt = rng.choice(["min_up", "max_down", "swap", "reverse_entry", "none"])
+                corrupt = rng.choice(["min_up", "max_down", "swap", "reverse_entry", "overlap", "overlap", "none"])
             cases.append({"op": "validate", "tier": t, "corrupt": corrupt, "scale": sc})
     # Textgrid.validate: True exactly when every tier has the textgrid's span and is itself valid (names unique)
     for _ in range(300 if tier == "quick" else 8000):
@@ -171,6 +171,12 @@ def run(case):
             elif c == "reverse_entry" and len(t._entries) >= 1 and case["tier"]["kind"] == "I":
                 e = t._entries[0]
                 t._entries[0] = type(e)(e[1], e[0], e[2])
+            elif c == "overlap" and len(t._entries) >= 2 and case["tier"]["kind"] == "I":
+                # an entry reaching into its successor: starts still ascending, everything inside the span
+                k = (case["tier"]["entries"][0][0] * 7 + len(t._entries)) % (len(t._entries) - 1)
+                e, nx = t._entries[k], t._entries[k + 1]
+                spec_nx = case["tier"]["entries"][k + 1]
+                t._entries[k] = type(e)(e[0], nx[1] if (k % 2 or spec_nx[1] - spec_nx[0] < 2) else sc.f(spec_nx[0] + 1), e[2])
             snap = core.snap_tier(t, sc)
             return {"state": snap, "valid": bool(t.validate("silence"))}
         if op == "tgvalidate":
